@@ -203,6 +203,11 @@ def main(chk, replay=None):
                 label = 'ellipse-log/%s/%dch' % (kind, len(form['xs']))
             else:
                 ev, kind, form, (cx, cy, a, b) = scn
+                # the same numbers in the types a parameter table hands out (their squares must not wrap)
+                ty = [int, np.uint8, np.int16, float, np.int32][chk.traces % 5]
+                if ty is np.uint8 and max(a, b) > 255:
+                    ty = np.int16
+                a, b = ty(a), ty(b)
                 x = C.get([list(e) for e in ev], kind, 3)
                 ch = render_form(form, 3)
                 call = lambda fo: FlowCal.gate.ellipse(x, ch, center=[cx, cy], a=a, b=b, theta=0, full_output=fo)   # noqa
